@@ -118,7 +118,8 @@ def team_cases(draw):
             "vars_section": True,
             "style": draw(st.integers(0, 3)),
             # how the list of bases is written: "a,b" as in rally-teams, or with a blank next to the comma
-            "sep": draw(st.sampled_from([","] * 30 + [", ", " ,"])),
+            # lead's decision: only the form rally-teams and docs/car.rst use; blanks around the comma are not a documented list syntax
+            "sep": ",",
         }
 
     n_sel = draw(st.sampled_from([1, 2, 2, 3, 3, 4]))
